@@ -30,7 +30,7 @@ ASSUMPTIONS = [
 ]
 REQUIRED = ["target:leaf", "target:item-leaf", "target:dict-entry", "target:list-item", "target:subconfig", "route:setattr",
             "route:setitem", "route:ctor", "route:load_tree", "route:loads", "route:container", "route:inplace", "depth>=2", "raised",
-            "target:include@depth0", "target:include@depth1", "target:include@depth2", "failed-reoffer", "takeover", "validator:odd-exception-type"]
+            "target:include@depth0", "target:include@depth1", "target:include@depth2", "failed-reoffer", "takeover", "validator:odd-exception-type", "offered-instance"]
 LEVEL_TEXT = (
     "Generated schemas x targets x rejected values x routes; the raised exception's type and reference path are "
     "compared with a model path computed from the spec; kills mutants that re-raise the field's own exception, "
@@ -175,6 +175,84 @@ def exhaustive(tier):
                 for route in (("setkey", "update", "setdefault") if container == "dict" else ("append", "insert", "setitem", "extend")):
                     for src, dst in ((0, 2), (2, 0), (1, 2)):
                         yield {"mode": "takeover", "place": place, "container": container, "how": how, "route": route, "src": src, "dst": dst}
+    for configtype in (False, True):
+        for place in ("root", "nested"):
+            for where in ("top", "deeper"):
+                for route in ("assign", "ctor", "append", "insert", "setitem", "extend"):
+                    yield {"mode": "offered-instance", "configtype": configtype, "place": place, "where": where, "route": route}
+
+
+def _offered_instance_case(case, R):
+    """Configuration INSTANCES (not maps) are offered to a list of configurations; one of them fails its own
+    validation (a required field is unset, at the top of the item or one level down)."""
+    cc = sandbox._state["cc"]
+    item = cc.Schema()
+    item.name = cc.StringField(required=True)
+    item.port = cc.IntField(default=1)
+    item.tls.cert = cc.StringField(required=True)
+    Item = cc.make_type(item, "Srv", module=__name__) if case["configtype"] else item
+    schema = cc.Schema()
+    place = case["place"]
+    if place == "root":
+        schema.servers = cc.ListField(Item)
+        prefix = "servers"
+        owner = lambda cfg: cfg
+    else:
+        schema.site.servers = cc.ListField(Item)
+        prefix = "site.servers"
+        owner = lambda cfg: cfg.site
+    cfg = schema()
+    owner(cfg).servers = [{"name": "a", "tls": {"cert": "a.pem"}}, {"name": "b", "tls": {"cert": "b.pem"}}]
+    R.label("offered-instance")
+    R.nontrivial = True
+
+    def make(ok):
+        inst = Item()
+        inst.name = "ok"
+        inst.tls.cert = "c.pem"
+        if not ok:  # a required field is unset again (public reset)
+            if case["where"] == "top":
+                cc.reset_value(inst, "name")
+            else:
+                cc.reset_value(inst.tls, "cert")
+        return inst
+    bad_field = "name" if case["where"] == "top" else "tls.cert"
+    lst = owner(cfg).servers
+    route = case["route"]
+    if route == "assign":
+        want_i = 1
+        action = lambda: setattr(owner(cfg), "servers", [make(True), make(False), make(True)])
+    elif route == "ctor" and place == "root":
+        want_i = 2
+        action = lambda: schema(servers=[make(True), make(True), make(False)])
+    elif route == "append":
+        want_i = 2
+        action = lambda: lst.append(make(False))
+    elif route == "insert":
+        want_i = 1
+        action = lambda: lst.insert(1, make(False))
+    elif route == "setitem":
+        want_i = 0
+        action = lambda: lst.__setitem__(0, make(False))
+    elif route == "extend":
+        want_i = 3
+        action = lambda: lst.extend([make(True), make(False)])
+    else:
+        return
+    want = "%s[%d].%s" % (prefix, want_i, bad_field)
+    try:
+        action()
+        err = None
+    except Exception as exc:
+        err = exc
+    site = "offered-instance:%s:%s" % (route, case["where"])
+    if not R.check(err is not None, "must-raise", site, "an item configuration with an unset required field was accepted"):
+        return
+    if not R.check(isinstance(err, cc.ValidationError), "type", site + ":" + type(err).__name__, lambda: "raised %r" % (err,)):
+        return
+    got = err.ref_path
+    R.check(got == want, "path", site, lambda: "offered item instance with %s unset: error names %r, the offending field is %r" % (bad_field, got, want))
+    R.check(str(err).startswith(got), "text", "starts-with-path", lambda: "message %r does not start with the path %r" % (str(err)[:120], got))
 
 
 def _takeover_case(case, R):
@@ -250,6 +328,8 @@ def _takeover_case(case, R):
 def run_case(case, R):
     if case.get("mode") == "takeover":
         return _takeover_case(case, R)
+    if case.get("mode") == "offered-instance":
+        return _offered_instance_case(case, R)
     cc = sandbox._state["cc"]
     spec = case["spec"]
     if case["target"] is None:
